@@ -90,6 +90,12 @@ def gen_cases(ctx, n, prop):
         if prop in ("C10", "C11", "C12") and r.random() < 0.6:
             # the model draws its starting points from the random stream handed to init_position
             c["random_init"] = True
+        if prop == "C10":
+            # every chain is also run alone (public API, documented recipe) inside the harness
+            c["alone"] = True
+            if r.random() < 0.5:
+                # a randomised density: Model::math draws from the stream it is given
+                c["random_math"] = True
         if prop in ("C11", "C10") and r.random() < 0.25:
             # controller commands in quick succession while the chains spend most of their time
             # inside record_sample (holding their trace mutex)
@@ -253,6 +259,23 @@ def audit(c, o, prop, reference):
                     if a != b[:len(a)]:
                         bad.append("chain %d: recorded %s is not a prefix of / equal to the reference run's" % (i, key))
                         break
+    # ... and equal to chain i run alone
+    if o.get("alone") and oc.get("trace") is not None and not faulty and not c.get("logp_faults"):
+        for i, ch in enumerate(oc["trace"]):
+            if i >= len(o["alone"]):
+                break
+            al = o["alone"][i]
+            if "error" in al and "energy" not in al:
+                bad.append("chain %d run alone failed: %s" % (i, str(al["error"])[:120]))
+                continue
+            keys = ("energy", "diverging", "n_steps") if c["preset"].endswith("nuts") else ("energy", "diverging")
+            for key in keys:
+                a, b = ch.get(key) or [], al.get(key) or []
+                if a != b[:len(a)]:
+                    k = next((j for j in range(len(a)) if j >= len(b) or a[j] != b[j]), None)
+                    bad.append("chain %d of the parallel run differs from chain %d run alone (same seed, stream %d): %s of draw %s is %s, alone %s" % (
+                        i, i, i + 1, key, k, a[k] if k is not None else None, b[k] if k is not None and k < len(b) else None))
+                    break
     # different chains use different random streams: no two chains record the same draws
     if prop == "C10" and oc.get("trace") is not None and not faulty:
         seen = {}
